@@ -366,6 +366,8 @@ var pureLib = map[string]bool{
 	"(*regexp.Regexp).MatchString": true, "(*regexp.Regexp).FindAllStringSubmatch": true, "(*regexp.Regexp).FindStringSubmatch": true,
 	"(time.Time).Format": true, "(time.Time).UTC": true, "(time.Time).IsZero": true, "(time.Time).Round": true, "(time.Time).Equal": true,
 	"(time.Time).Before": true, "(time.Time).After": true,
+	// reflection used as a pure accessor: the value of field i of a row is a function of the row and of i
+	"reflect.TypeOf": true, "reflect.ValueOf": true, "(reflect.Value).Field": true, "(reflect.Value).Interface": true, "(reflect.Value).Elem": true,
 }
 
 func (ex *Exec) pureLibCall(name string, callee *ssa.Function, args []Val, st *State, k CallCont) {
@@ -454,4 +456,87 @@ func (vc *VC) foldPureLib(name string, args []string) (Term, bool) {
 		}
 	}
 	return Term{}, false
+}
+
+// ---- bun.SelectQuery (assumed contract of the query builder and of PostgreSQL's LIMIT/OFFSET):
+// ghost rows: the rows matching the query, in the list's order; qOffset/qLimit: what Offset/Limit recorded
+// on the builder (-1: no limit). Scan fills its destination with rows[offset : offset+limit).
+func init() {
+	setGhostMap := func(ex *Exec, st *State, ghost string, key, val Term) {
+		env := ex.newEnv(st, nil, nil, nil)
+		g, ok := env.ghostVal(ghost, st)
+		if !ok {
+			ex.vc.fatalf("bun model: ghost %s is not declared (contracts/extern/bun.contracts)", ghost)
+			return
+		}
+		st.ghost[ghost] = Term{app("store", g.T.S, key.S, val.S), g.T.Sort}
+		if st.writes != nil {
+			st.writes.ghost[ghost] = true
+		}
+	}
+	externModels["(*github.com/uptrace/bun.SelectQuery).Offset"] = func(ex *Exec, fr *Frame, callee *ssa.Function, args []Val, st *State, k CallCont) {
+		q := ex.toTerm(st, args[0], nil)
+		setGhostMap(ex, st, "qOffset", q, ex.toTerm(st, args[1], nil))
+		k(st, tv(q), false)
+	}
+	externModels["(*github.com/uptrace/bun.SelectQuery).Limit"] = func(ex *Exec, fr *Frame, callee *ssa.Function, args []Val, st *State, k CallCont) {
+		q := ex.toTerm(st, args[0], nil)
+		setGhostMap(ex, st, "qLimit", q, ex.toTerm(st, args[1], nil))
+		k(st, tv(q), false)
+	}
+	externModels["(*github.com/uptrace/bun.SelectQuery).Scan"] = func(ex *Exec, fr *Frame, callee *ssa.Function, args []Val, st *State, k CallCont) {
+		vc := ex.vc
+		q := ex.toTerm(st, args[0], nil)
+		env := ex.newEnv(st, nil, nil, nil)
+		rows, ok1 := env.ghostVal("rows", st)
+		off, ok2 := env.ghostVal("qOffset", st)
+		lim, ok3 := env.ghostVal("qLimit", st)
+		errv := vc.fresh("scan_err", SAny)
+		if !ok1 || !ok2 || !ok3 {
+			vc.fatalf("bun model: ghosts rows/qOffset/qLimit are not declared")
+			return
+		}
+		dest := ex.toTerm(st, args[2], nil)
+		lit, ok := vc.seqLits[dest.S]
+		if !ok || len(lit) != 1 {
+			vc.note("Scan with an unrecognised destination at %s: destination havocked", ex.where())
+			ex.havocReachable(st, args[2], nil)
+			k(st, tv(errv), false)
+			return
+		}
+		// destination: an interface holding a pointer to a slice
+		for _, key := range vc.sorts.anyOrder {
+			c := vc.sorts.anyCtors[key]
+			pt, isPtr := c.typ.Underlying().(*types.Pointer)
+			if !isPtr || !strings.HasPrefix(lit[0].S, "("+c.name+" ") {
+				continue
+			}
+			es := vc.sorts.SortOf(pt.Elem())
+			if es != rows.T.Sort {
+				continue
+			}
+			ref := app(c.sel, lit[0].S)
+			o := app("select", off.T.S, q.S)
+			l := app("select", lim.T.S, q.S)
+			n := app("sq_len_"+es, rows.T.S)
+			lo := ite(app("<=", o, n), o, n)
+			hi := ite(app("<", l, "0"), n, ite(app("<=", app("+", lo, l), n), app("+", lo, l), n))
+			window := vc.fresh("scanned", es)
+			st.assume(implies(app("=", errv.S, "any_nil"), app("=", window.S, app("sq_sub_"+es, rows.T.S, lo, hi))))
+			hn, hs := vc.boxHeap(es)
+			h := vc.heapGet(st, hn, hs)
+			vc.heapSet(st, hn, Term{app("store", h.S, ref, window.S), hs})
+			if _, ok := vc.prog.contracts.Ghosts["lastScan"]; ok {
+				st.ghost["lastScan"] = window
+				if st.writes != nil {
+					st.writes.ghost["lastScan"] = true
+				}
+			}
+			k(st, tv(errv), false)
+			return
+		}
+		vc.note("Scan destination type not matched at %s: destination havocked", ex.where())
+		ex.havocReachable(st, args[2], nil)
+		k(st, tv(errv), false)
+	}
 }
